@@ -51,6 +51,22 @@ stages:
   mode: users
 `
 
+const fileUsersFirstYAML = `scenario: s
+limits:
+  max-duration: %s
+  concurrency: %d
+  max-iterations: %d
+  ignore-dropped: true
+stages:
+- duration: 300ms
+  mode: users
+- duration: 300ms
+  mode: constant
+  rate: 1/100ms
+  jitter: 0
+  distribution: none
+`
+
 func (c cfg) spec() *hlib.RunSpec {
 	rs := &hlib.RunSpec{
 		Mode:              c.mode,
@@ -68,6 +84,9 @@ func (c cfg) spec() *hlib.RunSpec {
 		rs.Flags = map[string]string{"stages": "0s:1,300ms:1", "iterationFrequency": "100ms", "distribution": "none"}
 	case "file":
 		rs.FileYAML = fmt.Sprintf(fileYAML, c.maxDur, c.conc, c.limit)
+	case "file-users-first":
+		rs.Mode = "file"
+		rs.FileYAML = fmt.Sprintf(fileUsersFirstYAML, c.maxDur, c.conc, c.limit)
 	}
 	rs.ScenarioFn = func(t *f1testing.T) f1testing.RunFn {
 		vrt.LogQuiet("setup")
@@ -158,7 +177,8 @@ func oracle(c cfg, o *vrt.Outcome) {
 	beginsAfterStop := 0
 	var retClock int64
 	nbegin := 0
-	for _, ev := range o.Log {
+	var stopClock int64 = -1
+	for li, ev := range o.Log {
 		f := strings.Fields(ev)
 		switch {
 		case f[0] == "begin":
@@ -182,8 +202,17 @@ func oracle(c cfg, o *vrt.Outcome) {
 			}
 		case strings.HasPrefix(ev, "display Active tests not completed"):
 			timeoutFired = true
+			// the wait may only be given up once the completion timeout has really
+			// elapsed since triggering stopped (holds under deviations too: firing
+			// a timer early still moves the clock to its deadline)
+			if stopClock >= 0 && o.LogClock[li]-stopClock < int64(c.ct) {
+				o.Fail("C05/gave-up-early", "before-completion-timeout", fmt.Sprintf("the run stopped waiting for in-flight iterations %s after it stopped triggering; the completion timeout is %s", time.Duration(o.LogClock[li]-stopClock), c.ct))
+			}
 		case ev == "display Max Duration Elapsed - waiting for active tests to complete", ev == "display Interrupted - waiting for active tests to complete":
 			stopSeen = true
+			if stopClock < 0 {
+				stopClock = o.LogClock[li]
+			}
 		case f[0] == "do-returned":
 			returned = true
 			fmt.Sscan(f[1], &retClock)
@@ -215,7 +244,7 @@ func oracle(c cfg, o *vrt.Outcome) {
 			if d := 300*time.Millisecond - 10*time.Millisecond; d < stop {
 				stop = d
 			}
-		case "file":
+		case "file", "file-users-first":
 			if d := 600*time.Millisecond - 10*time.Millisecond; d < stop {
 				stop = d
 			}
@@ -247,7 +276,7 @@ func scenariosFor(tier string) []vrt.Scenario {
 		}
 		s := scenario(c)
 		s.Bound = b
-		if c.cancelAt >= 0 || c.conc > 1 || c.mode == "file" {
+		if c.cancelAt >= 0 || c.conc > 1 || strings.HasPrefix(c.mode, "file") {
 			// a caller cancel wakes half a dozen threads at once and the free
 			// switches among them alone do not complete: delay-bounded policy,
 			// one more unit of budget
@@ -274,6 +303,9 @@ func scenariosFor(tier string) []vrt.Scenario {
 	add(b, cfg{mode: "constant", maxDur: ms(500), cancelAt: never, body: "forever"})
 	add(b, cfg{mode: "users", maxDur: ms(500), cancelAt: never, body: "forever"})
 	add(b, cfg{mode: "constant", maxDur: ms(2000), cancelAt: ms(1000), body: "instant", rate: "1/500ms"}) // cancel coincides with the progress tick
+	// an iteration is in flight when the caller cancels / when the last stage of a plan whose first stage is a users stage ends
+	add(b, cfg{mode: "constant", maxDur: ms(2000), cancelAt: ms(150), body: "sleeplong"})
+	add(b-1, cfg{mode: "file-users-first", maxDur: ms(2000), cancelAt: never, body: "sleeplong", conc: 2})
 	if quick {
 		add(0, cfg{mode: "staged", maxDur: ms(2000), cancelAt: never, body: "sleep30"})
 		add(0, cfg{mode: "file", maxDur: ms(2000), cancelAt: never, body: "sleep30"})
@@ -282,9 +314,9 @@ func scenariosFor(tier string) []vrt.Scenario {
 		return out
 	}
 	// full product at b=1
-	for _, mode := range []string{"constant", "users", "staged", "file"} {
+	for _, mode := range []string{"constant", "users", "staged", "file", "file-users-first"} {
 		for _, body := range []string{"instant", "sleep30", "sleeplong", "forever"} {
-			if body == "instant" && (mode == "users" || mode == "file") {
+			if body == "instant" && (mode == "users" || strings.HasPrefix(mode, "file")) {
 				continue // users workers with instant bodies never let virtual time pass
 			}
 			for _, conc := range []int{1, 2} {
